@@ -27,7 +27,7 @@ import (
 func TestMain(m *testing.M) { vt.Main(m) }
 
 type Step struct {
-	Kind   string `json:"kind"`           // ccall scall nested notify snotify release close wait fail vanish late sleep rejectnotes
+	Kind   string `json:"kind"`           // ccall scall nested notify snotify release close wait fail vanish late sleep rejectnotes badnotify sub unsub
 	Side   string `json:"side,omitempty"` // close/fail/vanish/late: client | server
 	I      int    `json:"i,omitempty"`
 	NoWait bool   `json:"nowait,omitempty"`
@@ -47,13 +47,31 @@ func genScript(rt *rapid.T, race bool) Script {
 	s.Modern = rapid.IntRange(0, 3).Draw(rt, "modern") == 0
 	n := rapid.IntRange(1, 30).Draw(rt, "n")
 	for i := 0; i < n; i++ {
-		st := Step{Kind: rapid.SampledFrom([]string{"ccall", "ccall", "scall", "nested", "notify", "snotify", "release", "release", "close", "close", "wait", "fail", "vanish", "late", "late", "latenotify", "sleep", "rejectnotes", "halfvanish", "badnotify"}).Draw(rt, "kind")}
+		st := Step{Kind: rapid.SampledFrom([]string{"ccall", "ccall", "scall", "nested", "notify", "snotify", "release", "release", "close", "close", "wait", "fail", "vanish", "late", "late", "latenotify", "sleep", "rejectnotes", "halfvanish", "badnotify", "sub", "sub", "unsub"}).Draw(rt, "kind")}
 		st.Side = rapid.SampledFrom([]string{"client", "server"}).Draw(rt, "side")
 		st.I = rapid.IntRange(0, 7).Draw(rt, "i")
 		if race {
 			st.NoWait = rapid.IntRange(0, 2).Draw(rt, "nowait") == 0
 		}
 		s.Steps = append(s.Steps, st)
+	}
+	// a shape generated on purpose (2026-07-28 sessions, where every subscription is a request parked on the
+	// server): several subscriptions opened, some of them ended in a generated order, then a Close
+	if rapid.IntRange(0, 4).Draw(rt, "sub_macro") == 0 {
+		s.Modern = true
+		order := rapid.Permutation([]int{0, 1, 2, 3}).Draw(rt, "sub_order")
+		nsub := rapid.IntRange(2, 4).Draw(rt, "nsub")
+		var macro []Step
+		for _, r := range order[:nsub] {
+			macro = append(macro, Step{Kind: "sub", I: r})
+		}
+		ends := rapid.Permutation(order[:nsub]).Draw(rt, "unsub_order")
+		for _, r := range ends[:rapid.IntRange(1, nsub).Draw(rt, "nunsub")] {
+			macro = append(macro, Step{Kind: "unsub", I: r})
+		}
+		macro = append(macro, Step{Kind: "close", Side: rapid.SampledFrom([]string{"server", "server", "client"}).Draw(rt, "macro_close")})
+		pos := rapid.IntRange(0, min(len(s.Steps), 5)).Draw(rt, "macro_pos")
+		s.Steps = append(s.Steps[:pos:pos], append(macro, s.Steps[pos:]...)...)
 	}
 	return s
 }
@@ -178,7 +196,15 @@ func runInBubble(s Script) (res vt.Result) {
 		KeepAlive:                   time.Duration(s.KeepAliveMs) * time.Millisecond,
 		KeepAliveFailureThreshold:   3,
 		ProgressNotificationHandler: func(ctx context.Context, r *mcp.ProgressNotificationServerRequest) {},
+		SubscribeHandler:            func(context.Context, *mcp.SubscribeRequest) error { return nil },
+		UnsubscribeHandler:          func(context.Context, *mcp.UnsubscribeRequest) error { return nil },
 	})
+	for r := 0; r < 4; r++ {
+		uri := fmt.Sprintf("file:///r%d", r)
+		server.AddResource(&mcp.Resource{URI: uri, Name: fmt.Sprintf("r%d", r)}, func(context.Context, *mcp.ReadResourceRequest) (*mcp.ReadResourceResult, error) {
+			return &mcp.ReadResourceResult{Contents: []*mcp.ResourceContents{{URI: uri, Text: "x"}}}, nil
+		})
+	}
 	mcp.AddTool(server, &mcp.Tool{Name: "park"}, func(ctx context.Context, req *mcp.CallToolRequest, a in) (*mcp.CallToolResult, any, error) {
 		if a.Nested {
 			// a handler that itself calls the peer and waits for the answer
@@ -325,6 +351,15 @@ func runInBubble(s Script) (res vt.Result) {
 				return cs.NotifyProgress(bg, &mcp.ProgressNotificationParams{ProgressToken: "p", Progress: 1})
 			})
 			desc.WriteString("p")
+		case "sub", "unsub": // resource subscriptions: on a 2026-07-28 session each one is a subscriptions/listen request parked on the server
+			uri := fmt.Sprintf("file:///r%d", st.I%4)
+			if st.Kind == "sub" {
+				start("client subscribe", func() error { return cs.Subscribe(bg, &mcp.SubscribeParams{URI: uri}) })
+			} else {
+				start("client unsubscribe", func() error { return cs.Unsubscribe(bg, &mcp.UnsubscribeParams{URI: uri}) })
+			}
+			res.Class("resource_subscriptions_come_and_go")
+			desc.WriteString(st.Kind[:1] + "u")
 		case "badnotify": // a notification whose params no JSON encoder can write (progress NaN): refused locally, nothing is sent
 			if st.Side == "client" {
 				start("client notify (unencodable)", func() error {
